@@ -86,8 +86,11 @@ GUploadCrashAfterDesc(r, t, k) ==
 
 \* a second writer with the id of a committed bundle (a preserved id used again, or the entries of a
 \* bundle object uploaded again - the call the mutable mount's commit makes): refused, nothing changes
+\* ("entries" only against a bundle that has a file list: a bundle without files has none to alter, and an
+\*  index file written next to its descriptor is read by nobody - the descriptor says there are none)
 GReUpload(r, b, t, mode) ==
   /\ WithCrash /\ b \in VisibleIn(r)
+  /\ mode = "entries" => NIdx(b) >= 1
   /\ UNCHANGED mvars
   /\ Log([op |-> "reupload", repo |-> r, bundle |-> b, tree |-> TreeArg(t), mode |-> mode])
 
